@@ -123,6 +123,7 @@ Section Accepted.
     destruct (lookup_jequiv "alg" _ _ NDh Evh) as [NDh' [Pk Hla]]. cbn [lookup String.eqb Ascii.eqb Bool.eqb] in Hla. unfold opt_jequiv in Hla.
     destruct (lookup "alg" h') as [va|] eqn:Ela; [|contradiction]. apply jequiv_str_inv in Hla. subst va.
     assert (Hhas : has "alg" h' = true) by (unfold has; now rewrite Ela).
+    assert (Hdup : dupfree (JObj h') = true) by exact (single_alg_dupfree _ _ Pk Ela).
     (* 3. the payload *)
     assert (Wpl : wfnum (JObj (update_signed_members (ui_key i) dh0))).
     { constructor. unfold update_signed_members. constructor; [exact (wfnum_img_jwk _)|]. constructor; [exact (W_str _)|constructor]. }
